@@ -214,10 +214,6 @@ func TestFreeV1(t *testing.T) {
 func freeRunSimple(t *testing.T, rnd *rand.Rand, run int, ver int) (map[string]any, []obs) {
 	cfg := randomConfig(rnd)
 	cfg.Ver = ver
-	if ver == 1 && len(cfg.Prios) > 1 && rnd.Intn(3) == 0 {
-		// v1 accepts fewer handlers than inputs (v2 refuses): the configured quantity is still the bound on concurrent Handle calls
-		cfg.H = 1 + uint(rnd.Intn(len(cfg.Prios)-1))
-	}
 	lg := &freeLog{}
 	chans := map[uint]chan int{}
 	inputs := map[uint]<-chan int{}
